@@ -499,11 +499,16 @@ def gen_float(rng, tier):
         e = t - L
         s = signed(rng, s)
         if ty == "f32":
-            yield Case("f.to_f32", [dec(2), rng.choice(modes), hx(s), dec(e)])
+            md = rng.choice(modes)
+            yield Case("f.to_f32", [dec(2), md, hx(s), dec(e)])
+            yield Case("f.to_f32.code", [dec(2), md, hx(s), dec(e)])      # mirrored model of the code as it is
             yield Case("fr.to_f32", [dec(2), hx(s), dec(e)])
+            yield Case("fr.to_f32.code", [dec(2), hx(s), dec(e)])
             yield Case("f.tryto_f32", [hx(s), dec(e)])
         else:
-            yield Case("f.to_f64", [dec(2), rng.choice(["HalfAway", "Zero"]), hx(s), dec(e)])
+            md = rng.choice(["HalfAway", "Zero"])
+            yield Case("f.to_f64", [dec(2), md, hx(s), dec(e)])
+            yield Case("f.to_f64.code", [dec(2), md, hx(s), dec(e)])
             yield Case("f.tryto_f64", [hx(s), dec(e)])
     # decimals d * 10^e, |e| <= 400 (and bases 16, 3)
     for _ in range(300 if quick else 40000):
